@@ -1727,7 +1727,7 @@ func (x *Exec) assumeGlobalInvs(st *State) {
 		if reads != nil {
 			rel := false
 			for _, id := range identsOf(gi.Expr) {
-				if reads[id] {
+				if reads[id] && x.isGlobalVarName(id) {
 					rel = true
 				}
 			}
@@ -2039,6 +2039,17 @@ func capturedParam(fn *ssa.Function, fv *ssa.FreeVar) bool {
 	for p := fn.Parent(); p != nil; p = p.Parent() {
 		for _, q := range p.Params {
 			if q.Name() == fv.Name() {
+				return true
+			}
+		}
+	}
+	return false
+}
+
+func (x *Exec) isGlobalVarName(id string) bool {
+	for _, pk := range x.P.TPkgs {
+		if o := pk.Scope().Lookup(id); o != nil {
+			if _, ok := o.(*types.Var); ok {
 				return true
 			}
 		}
